@@ -58,9 +58,21 @@ func NewZSetMember(score float64, data string) *ZSetMember {
 func (zset *ZSet) Add(nms []*ZSetMember, opt ZAddOption) int {
 	addedMemberCount := 0
 	for _, nm := range nms {
+		// A member has one entry: an existing entry is replaced, not duplicated.
+		isNewMember := true
+		for n, tm := range zset.members {
+			if tm.Member == nm.Member {
+				zset.members = append(zset.members[:n], zset.members[n+1:]...)
+				isNewMember = false
+				break
+			}
+		}
+		if !isNewMember {
+			addedMemberCount--
+		}
 		isAdded := false
 		for n, tm := range zset.members {
-			if nm.Score < tm.Score {
+			if nm.Score < tm.Score || (nm.Score == tm.Score && nm.Member < tm.Member) {
 				zset.members = append(zset.members[:n+1], zset.members[n:]...)
 				zset.members[n] = nm
 				isAdded = true
